@@ -188,21 +188,31 @@ def oracle(case, obs):
         else:
             if not case["checks_cn"]:
                 return "commonName used although it was not enabled"
+            if case["san"]:
+                return "commonName used although the certificate has a subjectAltName (URI entries only): RFC 6125 6.4.4 allows it only when no DNS-ID, SRV-ID or URI-ID is presented"
             if not any(dns_verdict(c, eff) in ("must", "may") for c in case["cn"]):
                 return "host accepted through a commonName that does not match"
         return None
     # rejected: was there an entry that must be accepted, with no earlier aborting entry?
+    several = None
     for e in case["san"]:
         if e[0] == "DNS":
-            if e[1] and e[1].split(".")[0].count("*") > 1:
-                break                                 # aborts the loop: either-region
+            if e[1] and e[1].split(".")[0].count("*") > 1 and several is None:
+                several = e[1]
             if dns_verdict(e[1], eff) == "must":
+                if several is not None:
+                    return "SAN entry %r must match host %r but the earlier entry %r with several wildcards made the matcher reject the certificate" % (e[1], host, several)
                 return "SAN entry %r must match host %r but the certificate was rejected" % (e[1], host)
     return None
 
 
 def signature(case, obs, msg):
-    return {"kind": case["kind"], "msg": (msg or "")[:40]}
+    m = msg or ""
+    if "with several wildcards made the matcher reject" in m:
+        return {"kind": "matching-entry-after-entry-with-several-wildcards"}
+    if m.startswith("commonName used although the certificate has a subjectAltName"):
+        return {"kind": "common-name-used-beside-uri-san"}
+    return {"kind": case["kind"], "msg": m[:40]}
 
 
 def nontrivial(case, obs):
@@ -225,7 +235,9 @@ def histogram(cases, obss):
 LABELS = ["a", "b", "ab", "*", "a*", "*a", "a*b", "**", "xn--a", "xn--*", "", "XN--*", "Xn--a*"]
 HOSTLABELS = ["a", "b", "ab", "xn--a", "", "A", "aXb", "xn--ab", "XN--a", "Xn--AB"]
 IPS = ["1.2.3.4", "01.2.3.4", "1.2.3.04", "::1", "[::1]", "0:0:0:0:0:0:0:1", "::0001", "fe80::1%eth0", "[fe80::1%25eth0]",
-       "fe80::1", "1.2.3.4 ", "1.2.3", "::ffff:1.2.3.4", "1.2.3.5", "[1.2.3.4]", "256.1.1.1", "::1%", "%", "1.2.3.4%x"]
+       "fe80::1", "1.2.3.4 ", "1.2.3", "::ffff:1.2.3.4", "1.2.3.5", "[1.2.3.4]", "256.1.1.1", "::1%", "%", "1.2.3.4%x",
+       # the other family, same numeric value
+       "::102:304", "::1.2.3.4", "0.0.0.1", "::", "0.0.0.0", "::102:305"]
 
 
 def rand_name(rng, labels, maxl=4):
@@ -321,6 +333,10 @@ def pins_for(rng, cert, n):
 
 
 def cases(rng, tier):
+    return targeted() + _cases(rng, tier)
+
+
+def _cases(rng, tier):
     out = []
     n = 20000 if tier == "quick" else 300000
     # systematic small ones: one SAN entry over the full alphabet (<= 2 labels) x hosts (<= 2 labels)
@@ -338,6 +354,27 @@ def cases(rng, tier):
         cert = bytes(rng.randrange(256) for _ in range(rng.randint(1, 64)))
         for p in pins_for(rng, cert, 8):
             out.append({"kind": "fp", "cert": cert.hex(), "pin": p})
+    return out
+
+
+def targeted():
+    out = []
+    for host in ("a.a", "b.a", "ab.b.a"):
+        for bad in ("**.a", "a*b*.a", "*a*.a", "**"):
+            for good in (host, host.upper(), "*." + host.split(".", 1)[1]):
+                out.append({"kind": "host", "san": [["DNS", bad], ["DNS", good]], "cn": [], "host": host, "checks_cn": 0})
+                out.append({"kind": "host", "san": [["DNS", good], ["DNS", bad]], "cn": [], "host": host, "checks_cn": 0})
+                out.append({"kind": "host", "san": [["other"], ["DNS", bad], ["IP", "1.2.3.4"], ["DNS", good]], "cn": [], "host": host, "checks_cn": 1})
+        for san in ([["other"]], [["other"], ["other"]], []):
+            for cn in ([host], ["*." + host.split(".", 1)[1]], ["x." + host]):
+                for chk in (0, 1):
+                    out.append({"kind": "host", "san": san, "cn": cn, "host": host, "checks_cn": chk})
+    # an iPAddress entry of the other family with the same numeric value
+    for host, sans in (("1.2.3.4", ["::102:304", "::1.2.3.4", "::ffff:1.2.3.4", "1.2.3.4"]), ("::102:304", ["1.2.3.4", "::1.2.3.4"]), ("[::1]", ["0.0.0.1", "::1"]),
+                       ("0.0.0.0", ["::", "0.0.0.0"]), ("::", ["0.0.0.0"]), ("[::1%25lo]", ["0.0.0.1"])):
+        for v in sans:
+            out.append({"kind": "host", "san": [["IP", v]], "cn": [], "host": host, "checks_cn": 0})
+            out.append({"kind": "host", "san": [["DNS", "a.b"], ["IP", v + "\n"]], "cn": [host], "host": host, "checks_cn": 1})
     return out
 
 
